@@ -93,6 +93,9 @@ def polynomial_from_attributes(
 
     if coefficients:
         numpoly.cfrom_attributes(coefficients, poly.values.ravel())
+    else:
+        for key in poly.keys:
+            poly.values[key] = 0
 
     # for key, values in zip(poly.keys, coefficients):
     #    poly.values[key] = values
